@@ -34,7 +34,7 @@ import (
 	"gorm.io/gorm/clause"
 )
 
-type raceProg struct {
+type c07RaceProg struct {
 	Seed    int64  `json:"seed"`
 	G       int    `json:"g"`
 	Cold    bool   `json:"cold"`
@@ -44,58 +44,62 @@ type raceProg struct {
 	Ops     int    `json:"ops"`
 }
 
-type racePair struct {
+type c07RacePair struct {
 	A   string `json:"a"`
 	B   string `json:"b"`
 	Raw string `json:"raw,omitempty"`
 }
 
-type raceOutcome struct {
-	Prog         raceProg   `json:"prog"`
-	Pairs        []racePair `json:"pairs"`
-	Mismatch     string     `json:"mismatch,omitempty"`
-	Inconclusive string     `json:"inconclusive,omitempty"`
-	OpKinds      []string   `json:"op_kinds"`
-	Errs         int        `json:"errs"`
-	Millis       int64      `json:"ms"`
+type c07RaceOutcome struct {
+	Prog         c07RaceProg   `json:"prog"`
+	Pairs        []c07RacePair `json:"pairs"`
+	Mismatch     string        `json:"mismatch,omitempty"`
+	PtrDiff      string        `json:"ptr_diff,omitempty"`
+	Inconclusive string        `json:"inconclusive,omitempty"`
+	OpKinds      []string      `json:"op_kinds"`
+	Errs         int           `json:"errs"`
+	Millis       int64         `json:"ms"`
 }
 
-type raceSpec struct {
-	Progs []raceProg `json:"progs"`
-	Log   string     `json:"log"`
+type c07RaceSpec struct {
+	Progs []c07RaceProg `json:"progs"`
+	Log   string        `json:"log"`
 }
 
 // ---------- plain (unrelated) models ----------
 
-type RcPlain1 struct {
+type C07Plain1 struct {
 	ID   uint `gorm:"primaryKey"`
 	Name string
 	N    int
 }
-type RcPlain2 struct {
+type C07Plain2 struct {
 	ID        uint `gorm:"primaryKey"`
 	Name      string
 	N         int
 	DeletedAt gorm.DeletedAt
 }
-type RcPlain3 struct {
+type C07Plain3 struct {
 	ID   uint `gorm:"primaryKey"`
 	Name string
 	N    int
 }
 
-var c07AllModels = []interface{}{&RCompany{}, &RProfile{}, &RPet{}, &RLang{}, &RToy{}, &RUser{}, &RcPlain1{}, &RcPlain2{}, &RcPlain3{},
-	&ScA{}, &ScB{}, &ScH{}, &ScN{}, &ScO{}, &ScS{}, &ScC{}, &ScD{}, &ScE{}}
+func (C07Plain1) TableName() string { return "rc_plain1" }
+func (C07Plain2) TableName() string { return "rc_plain2" }
+func (C07Plain3) TableName() string { return "rc_plain3" }
+
+var c07AllModels = []interface{}{&RCompany{}, &RProfile{}, &RPet{}, &RLang{}, &RToy{}, &RUser{}, &C07Plain1{}, &C07Plain2{}, &C07Plain3{},
+	&C07ScA{}, &C07ScB{}, &C07ScH{}, &C07ScN{}, &C07ScO{}, &C07ScS{}, &C07ScC{}, &C07ScD{}, &C07ScE{}, &C07ScQ{}}
 var c07AllTables = []string{"r_companies", "r_profiles", "r_pets", "r_langs", "r_toys", "r_users", "r_user_langs",
-	"rc_plain1", "rc_plain2", "rc_plain3", "sc_as", "sc_bs", "sc_hs", "sc_ns", "sc_os", "sc_ss", "sc_cs", "sc_ds", "sc_es"}
+	"rc_plain1", "rc_plain2", "rc_plain3", "sc_as", "sc_bs", "sc_hs", "sc_ns", "sc_os", "sc_ss", "sc_cs", "sc_ds", "sc_es", "sc_qs"}
 
 func c07Dump(sqlDB *sql.DB) map[string][]string {
 	out := map[string][]string{}
 	for _, t := range c07AllTables {
-		rows, err := sqlDB.Query("SELECT * FROM " + t + " ORDER BY 1, 2")
+		rows, err := sqlDB.Query("SELECT * FROM " + t)
 		if err != nil {
-			out[t] = []string{"ERR " + err.Error()}
-			continue
+			panic("c07Dump: " + t + ": " + err.Error())
 		}
 		cols, _ := rows.Columns()
 		list := []string{}
@@ -116,12 +120,13 @@ func c07Dump(sqlDB *sql.DB) map[string][]string {
 			list = append(list, s)
 		}
 		rows.Close()
+		sort.Strings(list) // canonical: row order is not part of the property
 		out[t] = list
 	}
 	return out
 }
 
-func errClass(err error) string {
+func c07ErrClass(err error) string {
 	switch {
 	case err == nil:
 		return "ok"
@@ -134,7 +139,7 @@ func errClass(err error) string {
 	}
 }
 
-func showUser(u *RUser) string {
+func c07ShowUser(u *RUser) string {
 	s := fmt.Sprintf("U%d/%s/%d", u.ID, u.Name, u.Age)
 	if u.CompanyID != nil {
 		s += fmt.Sprintf(" cid=%d", *u.CompanyID)
@@ -165,23 +170,23 @@ func showUser(u *RUser) string {
 	return s + " [" + strings.Join(kids, ",") + "]"
 }
 
-func showUsers(us []RUser) string {
+func c07ShowUsers(us []RUser) string {
 	var out []string
 	for i := range us {
-		out = append(out, showUser(&us[i]))
+		out = append(out, c07ShowUser(&us[i]))
 	}
 	return strings.Join(out, " | ")
 }
 
 // ---------- one goroutine's program ----------
 
-type raceWorker struct {
+type c07RaceWorker struct {
 	g     int
 	base  uint
 	rng   *rand.Rand
 	n     uint   // ids handed out
 	users []uint // own user ids created so far
-	as    []uint // own ScA ids
+	as    []uint // own C07ScA ids
 	ns    []uint
 	ps    []uint // own plain ids
 	kinds map[string]bool
@@ -189,9 +194,9 @@ type raceWorker struct {
 	first bool
 }
 
-func (w *raceWorker) next() uint { w.n++; return w.base + w.n }
+func (w *c07RaceWorker) next() uint { w.n++; return w.base + w.n }
 
-func (w *raceWorker) opRelated(h *gorm.DB) string {
+func (w *c07RaceWorker) opRelated(h *gorm.DB) string {
 	lo, hi := w.base, w.base+9999
 	pick := func() uint {
 		if len(w.users) == 0 {
@@ -231,50 +236,50 @@ func (w *raceWorker) opRelated(h *gorm.DB) string {
 		if err == nil {
 			w.users = append(w.users, id)
 		}
-		return "create " + errClass(err)
+		return "create " + c07ErrClass(err)
 	case 2:
 		w.kinds["find"] = true
 		var us []RUser
 		err := h.Where("id BETWEEN ? AND ?", lo, hi).Order("id").Find(&us).Error
-		return "find " + errClass(err) + " " + showUsers(us)
+		return "find " + c07ErrClass(err) + " " + c07ShowUsers(us)
 	case 3:
 		w.kinds["first"] = true
 		var u RUser
 		err := h.First(&u, pick()).Error
-		return "first " + errClass(err) + " " + showUser(&u)
+		return "first " + c07ErrClass(err) + " " + c07ShowUser(&u)
 	case 4:
 		w.kinds["preload"] = true
 		var us []RUser
 		err := h.Preload("Pets").Preload("Company").Preload("Langs").Preload("Toys").Preload("Profile").Preload("Manager").Preload("Team").
 			Where("id BETWEEN ? AND ?", lo, hi).Order("id").Find(&us).Error
-		return "preload " + errClass(err) + " " + showUsers(us)
+		return "preload " + c07ErrClass(err) + " " + c07ShowUsers(us)
 	case 5:
 		w.kinds["preload-all"] = true
 		var us []RUser
 		err := h.Preload(clause.Associations).Where("id BETWEEN ? AND ?", lo, hi).Order("id").Find(&us).Error
-		return "preloadall " + errClass(err) + " " + showUsers(us)
+		return "preloadall " + c07ErrClass(err) + " " + c07ShowUsers(us)
 	case 6:
 		w.kinds["joins"] = true
 		var us []RUser
 		err := h.Joins("Company").Joins("Manager").Where("r_users.id BETWEEN ? AND ?", lo, hi).Order("r_users.id").Find(&us).Error
-		return "joins " + errClass(err) + " " + showUsers(us)
+		return "joins " + c07ErrClass(err) + " " + c07ShowUsers(us)
 	case 7:
 		w.kinds["update"] = true
 		tx := h.Model(&RUser{}).Where("id = ?", pick()).Update("age", 1+w.rng.Intn(90))
-		return fmt.Sprintf("update %s %d", errClass(tx.Error), tx.RowsAffected)
+		return fmt.Sprintf("update %s %d", c07ErrClass(tx.Error), tx.RowsAffected)
 	case 8:
 		w.kinds["updates-map"] = true
 		tx := h.Model(&RUser{ID: pick()}).Updates(map[string]interface{}{"name": fmt.Sprintf("g%d-n%d", w.g, w.rng.Intn(100)), "age": w.rng.Intn(90)})
-		return fmt.Sprintf("updates %s %d", errClass(tx.Error), tx.RowsAffected)
+		return fmt.Sprintf("updates %s %d", c07ErrClass(tx.Error), tx.RowsAffected)
 	case 9:
 		w.kinds["delete-soft"] = true
 		var pets []RPet
 		uid := pick()
 		if err := h.Where("r_user_id = ?", uid).Order("id").Find(&pets).Error; err != nil || len(pets) == 0 {
-			return "delete-none " + errClass(err)
+			return "delete-none " + c07ErrClass(err)
 		}
 		tx := h.Delete(&RPet{}, pets[0].ID)
-		return fmt.Sprintf("delete %s %d", errClass(tx.Error), tx.RowsAffected)
+		return fmt.Sprintf("delete %s %d", c07ErrClass(tx.Error), tx.RowsAffected)
 	case 10:
 		w.kinds["transaction"] = true
 		id := w.next()
@@ -296,12 +301,12 @@ func (w *raceWorker) opRelated(h *gorm.DB) string {
 		if err == nil {
 			w.users = append(w.users, id)
 		}
-		return "tx " + errClass(err)
+		return "tx " + c07ErrClass(err)
 	case 11:
 		w.kinds["assoc-append"] = true
 		u := RUser{ID: pick()}
 		err := h.Model(&u).Association("Pets").Append(&RPet{ID: w.next(), Name: "appended"})
-		return "assoc-append " + errClass(err)
+		return "assoc-append " + c07ErrClass(err)
 	case 12:
 		w.kinds["assoc-count-find"] = true
 		u := RUser{ID: pick()}
@@ -313,54 +318,54 @@ func (w *raceWorker) opRelated(h *gorm.DB) string {
 			codes = append(codes, l.Code)
 		}
 		sort.Strings(codes)
-		return fmt.Sprintf("assoc-count %d %s %v", n, errClass(err), codes)
+		return fmt.Sprintf("assoc-count %d %s %v", n, c07ErrClass(err), codes)
 	default:
 		w.kinds["assoc-replace"] = true
 		u := RUser{ID: pick()}
 		err := h.Model(&u).Association("Langs").Replace(&RLang{Code: fmt.Sprintf("g%d-r%d", w.g, w.next()), Name: "repl"})
-		return "assoc-replace " + errClass(err)
+		return "assoc-replace " + c07ErrClass(err)
 	}
 }
 
-func (w *raceWorker) opMutual(h *gorm.DB) string {
+func (w *c07RaceWorker) opMutual(h *gorm.DB) string {
 	lo, hi := w.base, w.base+9999
-	k := w.rng.Intn(9)
+	k := w.rng.Intn(10)
 	if len(w.as) == 0 && (k == 4 || k == 6) {
-		// first use enters through a different model type per goroutine (A, B, O/N, C/D/E)
-		k = []int{0, 1, 5, 7, 2, 3}[w.g%6]
+		// first use enters through a different model type per goroutine (A, B, O/N, C/D/E, Q)
+		k = []int{0, 1, 5, 7, 2, 3, 9}[w.g%7]
 	}
 	switch k {
 	case 0:
 		w.kinds["m-create-A"] = true
 		id := w.next()
-		a := ScA{ID: id}
+		a := C07ScA{ID: id}
 		for i, n := 0, w.rng.Intn(3); i < n; i++ {
-			a.Bs = append(a.Bs, ScB{ID: w.next()})
+			a.Bs = append(a.Bs, C07ScB{ID: w.next()})
 		}
 		if w.rng.Intn(2) == 0 {
-			a.H = &ScH{ID: id}
+			a.H = &C07ScH{ID: id}
 		}
 		err := h.Create(&a).Error
 		if err == nil {
 			w.as = append(w.as, id)
 		}
-		return "mcreateA " + errClass(err)
+		return "mcreateA " + c07ErrClass(err)
 	case 1:
 		w.kinds["m-find-B-preload-A"] = true
-		var bs []ScB
+		var bs []C07ScB
 		err := h.Preload("A").Where("id BETWEEN ? AND ?", lo, hi).Order("id").Find(&bs).Error
 		s := ""
 		for _, b := range bs {
-			s += fmt.Sprintf("B%d->%d", b.ID, b.ScAID)
+			s += fmt.Sprintf("B%d->%d", b.ID, b.C07ScAID)
 			if b.A != nil {
 				s += fmt.Sprintf("(A%d)", b.A.ID)
 			}
 			s += " "
 		}
-		return "mfindB " + errClass(err) + " " + s
+		return "mfindB " + c07ErrClass(err) + " " + s
 	case 2:
 		w.kinds["m-find-A-preload-Bs"] = true
-		var as []ScA
+		var as []C07ScA
 		err := h.Preload("Bs").Preload("H").Where("id BETWEEN ? AND ?", lo, hi).Order("id").Find(&as).Error
 		s := ""
 		for _, a := range as {
@@ -371,10 +376,10 @@ func (w *raceWorker) opMutual(h *gorm.DB) string {
 			sort.Strings(kids)
 			s += fmt.Sprintf("A%d%v h=%v ", a.ID, kids, a.H != nil)
 		}
-		return "mfindA " + errClass(err) + " " + s
+		return "mfindA " + c07ErrClass(err) + " " + s
 	case 3:
 		w.kinds["m-joins-B-A"] = true
-		var bs []ScB
+		var bs []C07ScB
 		err := h.Joins("A").Where("sc_bs.id BETWEEN ? AND ?", lo, hi).Order("sc_bs.id").Find(&bs).Error
 		s := ""
 		for _, b := range bs {
@@ -384,23 +389,23 @@ func (w *raceWorker) opMutual(h *gorm.DB) string {
 			}
 			s += " "
 		}
-		return "mjoins " + errClass(err) + " " + s
+		return "mjoins " + c07ErrClass(err) + " " + s
 	case 4:
 		w.kinds["m-create-N-O-S"] = true
 		id := w.next()
 		aid := w.as[w.rng.Intn(len(w.as))]
-		n := ScN{ID: id, ScAID: aid}
+		n := C07ScN{ID: id, C07ScAID: aid}
 		for i, c := 0, 1+w.rng.Intn(2); i < c; i++ {
-			n.Os = append(n.Os, ScO{ID: w.next(), S: &ScS{ID: w.next()}})
+			n.Os = append(n.Os, C07ScO{ID: w.next(), S: &C07ScS{ID: w.next()}})
 		}
 		err := h.Create(&n).Error
 		if err == nil {
 			w.ns = append(w.ns, id)
 		}
-		return "mcreateN " + errClass(err)
+		return "mcreateN " + c07ErrClass(err)
 	case 5:
 		w.kinds["m-find-O-preload-N-A"] = true
-		var os []ScO
+		var os []C07ScO
 		err := h.Preload("N.A").Preload("S").Where("id BETWEEN ? AND ?", lo, hi).Order("id").Find(&os).Error
 		s := ""
 		for _, o := range os {
@@ -417,18 +422,18 @@ func (w *raceWorker) opMutual(h *gorm.DB) string {
 			}
 			s += " "
 		}
-		return "mfindO " + errClass(err) + " " + s
+		return "mfindO " + c07ErrClass(err) + " " + s
 	case 6:
 		w.kinds["m-assoc-append-Bs"] = true
-		a := ScA{ID: w.as[w.rng.Intn(len(w.as))]}
-		err := h.Model(&a).Association("Bs").Append(&ScB{ID: w.next()})
-		return "massoc " + errClass(err)
+		a := C07ScA{ID: w.as[w.rng.Intn(len(w.as))]}
+		err := h.Model(&a).Association("Bs").Append(&C07ScB{ID: w.next()})
+		return "massoc " + c07ErrClass(err)
 	case 7:
 		w.kinds["m-cycle-CDE"] = true
 		id := w.next()
-		c := ScC{ID: id, D: &ScD{ID: id, E: &ScE{ID: id}}}
+		c := C07ScC{ID: id, D: &C07ScD{ID: id, E: &C07ScE{ID: id}}}
 		err := h.Create(&c).Error
-		var cs []ScC
+		var cs []C07ScC
 		err2 := h.Preload("D.E").Where("id BETWEEN ? AND ?", lo, hi).Order("id").Find(&cs).Error
 		s := ""
 		for _, c := range cs {
@@ -438,19 +443,35 @@ func (w *raceWorker) opMutual(h *gorm.DB) string {
 			}
 			s += " "
 		}
-		return "mcycle " + errClass(err) + " " + errClass(err2) + " " + s
+		return "mcycle " + c07ErrClass(err) + " " + c07ErrClass(err2) + " " + s
+	case 9:
+		w.kinds["m-Q-create-preload-Bs"] = true
+		id := w.next()
+		err := h.Create(&C07ScQ{ID: id, Bs: []C07ScB{{ID: w.next()}}}).Error
+		var qs []C07ScQ
+		err2 := h.Preload("Bs").Where("id BETWEEN ? AND ?", lo, hi).Order("id").Find(&qs).Error
+		s := ""
+		for _, q := range qs {
+			var kids []string
+			for _, b := range q.Bs {
+				kids = append(kids, fmt.Sprint(b.ID))
+			}
+			sort.Strings(kids)
+			s += fmt.Sprintf("Q%d%v ", q.ID, kids)
+		}
+		return "mQ " + c07ErrClass(err) + " " + c07ErrClass(err2) + " " + s
 	default:
 		w.kinds["m-update-delete-B"] = true
-		var bs []ScB
+		var bs []C07ScB
 		if err := h.Where("id BETWEEN ? AND ?", lo, hi).Order("id").Find(&bs).Error; err != nil || len(bs) == 0 {
-			return "mdel-none " + errClass(err)
+			return "mdel-none " + c07ErrClass(err)
 		}
-		tx := h.Delete(&ScB{}, bs[len(bs)-1].ID)
-		return fmt.Sprintf("mdel %s %d", errClass(tx.Error), tx.RowsAffected)
+		tx := h.Delete(&C07ScB{}, bs[len(bs)-1].ID)
+		return fmt.Sprintf("mdel %s %d", c07ErrClass(tx.Error), tx.RowsAffected)
 	}
 }
 
-func (w *raceWorker) opPlain(h *gorm.DB) string {
+func (w *c07RaceWorker) opPlain(h *gorm.DB) string {
 	lo, hi := w.base, w.base+9999
 	k := w.rng.Intn(7)
 	if len(w.ps) == 0 {
@@ -460,22 +481,22 @@ func (w *raceWorker) opPlain(h *gorm.DB) string {
 	newv := func(id uint, name string, n int) interface{} {
 		switch which {
 		case 0:
-			return &RcPlain1{ID: id, Name: name, N: n}
+			return &C07Plain1{ID: id, Name: name, N: n}
 		case 1:
-			return &RcPlain2{ID: id, Name: name, N: n}
+			return &C07Plain2{ID: id, Name: name, N: n}
 		default:
-			return &RcPlain3{ID: id, Name: name, N: n}
+			return &C07Plain3{ID: id, Name: name, N: n}
 		}
 	}
 	model := newv(0, "", 0)
 	findAll := func() (string, error) {
 		switch which {
 		case 0:
-			var xs []RcPlain1
+			var xs []C07Plain1
 			err := h.Where("id BETWEEN ? AND ?", lo, hi).Order("id").Find(&xs).Error
 			return fmt.Sprint(xs), err
 		case 1:
-			var xs []RcPlain2
+			var xs []C07Plain2
 			err := h.Where("id BETWEEN ? AND ?", lo, hi).Order("id").Find(&xs).Error
 			s := ""
 			for _, x := range xs {
@@ -483,7 +504,7 @@ func (w *raceWorker) opPlain(h *gorm.DB) string {
 			}
 			return s, err
 		default:
-			var xs []RcPlain3
+			var xs []C07Plain3
 			err := h.Where("id BETWEEN ? AND ?", lo, hi).Order("id").Find(&xs).Error
 			return fmt.Sprint(xs), err
 		}
@@ -497,24 +518,24 @@ func (w *raceWorker) opPlain(h *gorm.DB) string {
 		if err == nil {
 			w.ps = append(w.ps, id)
 		}
-		return "pcreate " + errClass(err)
+		return "pcreate " + c07ErrClass(err)
 	case 2:
 		w.kinds["p-find"] = true
 		s, err := findAll()
-		return "pfind " + errClass(err) + " " + s
+		return "pfind " + c07ErrClass(err) + " " + s
 	case 3:
 		w.kinds["p-update"] = true
 		tx := h.Model(model).Where("id = ?", pick()).Update("n", w.rng.Intn(100))
-		return fmt.Sprintf("pupdate %s %d", errClass(tx.Error), tx.RowsAffected)
+		return fmt.Sprintf("pupdate %s %d", c07ErrClass(tx.Error), tx.RowsAffected)
 	case 4:
 		w.kinds["p-delete"] = true
 		tx := h.Where("id = ?", pick()).Delete(model)
-		return fmt.Sprintf("pdelete %s %d", errClass(tx.Error), tx.RowsAffected)
+		return fmt.Sprintf("pdelete %s %d", c07ErrClass(tx.Error), tx.RowsAffected)
 	case 5:
 		w.kinds["p-count"] = true
 		var n int64
 		err := h.Model(model).Where("id BETWEEN ? AND ?", lo, hi).Count(&n).Error
-		return fmt.Sprintf("pcount %s %d", errClass(err), n)
+		return fmt.Sprintf("pcount %s %d", c07ErrClass(err), n)
 	default:
 		w.kinds["p-transaction"] = true
 		id := w.next()
@@ -531,12 +552,12 @@ func (w *raceWorker) opPlain(h *gorm.DB) string {
 		if err == nil {
 			w.ps = append(w.ps, id)
 		}
-		return "ptx " + errClass(err)
+		return "ptx " + c07ErrClass(err)
 	}
 }
 
 // readers: read-only operations on pre-seeded rows (goroutine g reads the rows of seed block g)
-func (w *raceWorker) opReader(h *gorm.DB) string {
+func (w *c07RaceWorker) opReader(h *gorm.DB) string {
 	lo, hi := w.base, w.base+9999
 	k := w.rng.Intn(4)
 	if w.first {
@@ -553,35 +574,36 @@ func (w *raceWorker) opReader(h *gorm.DB) string {
 				n++
 			}
 		}
-		return fmt.Sprintf("rfind %s total=%d own=%d", errClass(err), len(us), n)
+		return fmt.Sprintf("rfind %s total=%d own=%d", c07ErrClass(err), len(us), n)
 	case 1:
 		w.kinds["r-find-where"] = true
 		var us []RUser
 		err := h.Where("id BETWEEN ? AND ?", lo, hi).Order("id").Find(&us).Error
-		return "rfindw " + errClass(err) + " " + showUsers(us)
+		return "rfindw " + c07ErrClass(err) + " " + c07ShowUsers(us)
 	case 2:
 		w.kinds["r-preload"] = true
 		var us []RUser
 		err := h.Preload("Pets").Preload("Company").Where("id BETWEEN ? AND ?", lo, hi).Order("id").Find(&us).Error
-		return "rpreload " + errClass(err) + " " + showUsers(us)
+		return "rpreload " + c07ErrClass(err) + " " + c07ShowUsers(us)
 	default:
 		w.kinds["r-count"] = true
 		var n int64
 		err := h.Model(&RUser{}).Count(&n).Error
-		return fmt.Sprintf("rcount %s %d", errClass(err), n)
+		return fmt.Sprintf("rcount %s %d", c07ErrClass(err), n)
 	}
 }
 
-type raceRun struct {
-	outs  [][]string
-	dump  map[string][]string
-	kinds map[string]bool
-	errs  int
-	hung  bool
+type c07RaceRun struct {
+	ptrDiff string
+	outs    [][]string
+	dump    map[string][]string
+	kinds   map[string]bool
+	errs    int
+	hung    bool
 }
 
-// runRaceProg executes one program, serially (reference) or with G concurrent goroutines, on a fresh database.
-func runRaceProg(p raceProg, serial bool) raceRun {
+// c07RunRaceProg executes one program, serially (reference) or with G concurrent goroutines, on a fresh database.
+func c07RunRaceProg(p c07RaceProg, serial bool) c07RaceRun {
 	setup, _, sqlDB := OpenRec(&gorm.Config{NowFunc: fixedNowFunc})
 	defer sqlDB.Close()
 	if p.Family == "readers" {
@@ -594,7 +616,7 @@ func runRaceProg(p raceProg, serial bool) raceRun {
 	}
 	if p.Family == "readers" {
 		for g := 0; g < p.G; g++ {
-			w := &raceWorker{g: g, base: uint(g+1) * 10000, rng: rand.New(rand.NewSource(p.Seed*977 + int64(g))), kinds: map[string]bool{}}
+			w := &c07RaceWorker{g: g, base: uint(g+1) * 10000, rng: rand.New(rand.NewSource(p.Seed*977 + int64(g))), kinds: map[string]bool{}}
 			for i := 0; i < 3; i++ {
 				w.users = nil
 				w.opRelated(setup) // k==0 path: create graph
@@ -621,7 +643,7 @@ func runRaceProg(p raceProg, serial bool) raceRun {
 			return shared
 		}
 	}
-	op := func(w *raceWorker, h *gorm.DB) string {
+	op := func(w *c07RaceWorker, h *gorm.DB) string {
 		switch p.Family {
 		case "related":
 			return w.opRelated(h)
@@ -635,7 +657,7 @@ func runRaceProg(p raceProg, serial bool) raceRun {
 	}
 	if !p.Cold {
 		// warm: every operation kind, serially, on a reserved id block, before the goroutines start
-		w := &raceWorker{g: 90, base: 900000, rng: rand.New(rand.NewSource(p.Seed + 5)), kinds: map[string]bool{}}
+		w := &c07RaceWorker{g: 90, base: 900000, rng: rand.New(rand.NewSource(p.Seed + 5)), kinds: map[string]bool{}}
 		hw := mk()
 		for _, m := range c07AllModels {
 			st := &gorm.Statement{DB: shared}
@@ -657,13 +679,36 @@ func runRaceProg(p raceProg, serial bool) raceRun {
 		}
 		handles[i] = mk()
 	}
-	workers := make([]*raceWorker, p.G)
+	workers := make([]*c07RaceWorker, p.G)
 	outs := make([][]string, p.G)
 	for g := 0; g < p.G; g++ {
-		workers[g] = &raceWorker{g: g, base: uint(g+1) * 10000, rng: rand.New(rand.NewSource(p.Seed*131 + int64(g))), kinds: map[string]bool{}, first: true}
+		workers[g] = &c07RaceWorker{g: g, base: uint(g+1) * 10000, rng: rand.New(rand.NewSource(p.Seed*131 + int64(g))), kinds: map[string]bool{}, first: true}
 	}
+	// "stampede" (half of the cold programs): every goroutine's very first action is Statement.Parse of every model type of
+	// its family, in a rotated order; the *schema.Schema each goroutine received is recorded (single-winner observable)
+	var fam []interface{}
+	switch p.Family {
+	case "mutual":
+		fam = []interface{}{&C07ScA{}, &C07ScB{}, &C07ScQ{}, &C07ScN{}, &C07ScO{}, &C07ScC{}, &C07ScD{}, &C07ScE{}, &C07ScS{}, &C07ScH{}}
+	case "related", "readers":
+		fam = []interface{}{&RUser{}, &RPet{}, &RCompany{}, &RProfile{}, &RLang{}, &RToy{}}
+	default:
+		fam = []interface{}{&C07Plain1{}, &C07Plain2{}, &C07Plain3{}}
+	}
+	stampede := p.Cold && p.Seed%2 == 0
+	ptrs := make([]map[string]string, p.G)
 	body := func(g int) {
 		w := workers[g]
+		if stampede {
+			ptrs[g] = map[string]string{}
+			for i := range fam {
+				m := fam[(g+i)%len(fam)]
+				st := &gorm.Statement{DB: shared}
+				if err := st.Parse(m); err == nil && st.Schema != nil {
+					ptrs[g][st.Schema.Name] = fmt.Sprintf("%p", st.Schema)
+				}
+			}
+		}
 		for i := 0; i < p.Ops; i++ {
 			s := op(w, handles[i])
 			if strings.Contains(s, " err:") || strings.Contains(s, " locked") {
@@ -672,7 +717,7 @@ func runRaceProg(p raceProg, serial bool) raceRun {
 			outs[g] = append(outs[g], s)
 		}
 	}
-	res := raceRun{kinds: map[string]bool{}}
+	res := c07RaceRun{kinds: map[string]bool{}}
 	if serial {
 		for g := 0; g < p.G; g++ {
 			body(g)
@@ -704,6 +749,15 @@ func runRaceProg(p raceProg, serial bool) raceRun {
 		}
 		res.errs += w.errs
 	}
+	if stampede {
+		for g := 1; g < p.G; g++ {
+			for name, ptr := range ptrs[g] {
+				if p0, ok := ptrs[0][name]; ok && p0 != ptr {
+					res.ptrDiff = fmt.Sprintf("model %s: goroutine 0 received schema %s, goroutine %d received %s", name, p0, g, ptr)
+				}
+			}
+		}
+	}
 	res.outs = outs
 	res.dump = c07Dump(sqlDB)
 	return res
@@ -711,11 +765,11 @@ func runRaceProg(p raceProg, serial bool) raceRun {
 
 // ---------- race report parsing ----------
 
-var reFn = regexp.MustCompile(`^\s+(\S+)\(\)$`)
+var c07ReFn = regexp.MustCompile(`^\s+(\S+)\(\)$`)
 
-// normaliseFrame: "gorm.io/gorm/schema.(*Schema).setRelation" -> "schema.Schema.setRelation"; closures are attributed to
+// c07NormaliseFrame: "gorm.io/gorm/schema.(*Schema).setRelation" -> "schema.Schema.setRelation"; closures are attributed to
 // their enclosing function ("…Execute.func1" -> "…Execute").
-func normaliseFrame(fn string) string {
+func c07NormaliseFrame(fn string) string {
 	fn = strings.TrimPrefix(fn, "gorm.io/gorm/")
 	if strings.HasPrefix(fn, "gorm.io/gorm.") {
 		fn = "gorm." + strings.TrimPrefix(fn, "gorm.io/gorm.")
@@ -739,14 +793,14 @@ func normaliseFrame(fn string) string {
 	return fn
 }
 
-func isGormFrame(fn string) bool {
+func c07IsGormFrame(fn string) bool {
 	return strings.HasPrefix(fn, "gorm.io/gorm/") || strings.HasPrefix(fn, "gorm.io/gorm.")
 }
 
-// parseRaceReports extracts, per "WARNING: DATA RACE" block, the top gorm frame of each of the two access stacks
+// c07ParseRaceReports extracts, per "WARNING: DATA RACE" block, the top gorm frame of each of the two access stacks
 // ("" = the stack has no gorm frame, "?" = the detector could not restore the stack).
-func parseRaceReports(text string) []racePair {
-	var out []racePair
+func c07ParseRaceReports(text string) []c07RacePair {
+	var out []c07RacePair
 	for _, blk := range strings.Split(text, "==================") {
 		if !strings.Contains(blk, "WARNING: DATA RACE") {
 			continue
@@ -773,8 +827,8 @@ func parseRaceReports(text string) []racePair {
 				top = "?"
 			}
 			for _, l := range lines {
-				if m := reFn.FindStringSubmatch(l); m != nil && isGormFrame(m[1]) {
-					top = normaliseFrame(m[1])
+				if m := c07ReFn.FindStringSubmatch(l); m != nil && c07IsGormFrame(m[1]) {
+					top = c07NormaliseFrame(m[1])
 					break
 				}
 			}
@@ -791,7 +845,7 @@ func parseRaceReports(text string) []racePair {
 		if len(raw) > 2500 {
 			raw = raw[:2500] + " …"
 		}
-		out = append(out, racePair{A: a, B: b, Raw: raw})
+		out = append(out, c07RacePair{A: a, B: b, Raw: raw})
 	}
 	return out
 }
@@ -800,7 +854,7 @@ func parseRaceReports(text string) []racePair {
 
 // F10: both racing frames are schema-parsing functions (a parser reads a schema that getOrParse handed out before its own
 // parser finished writing it).
-var f10Funcs = map[string]bool{
+var c07F10Funcs = map[string]bool{
 	"schema.ParseWithSpecialTableName": true, "schema.Schema.parseRelation": true, "schema.Schema.setRelation": true,
 	"schema.Schema.guessRelation": true, "schema.Schema.LookUpField": true, "schema.Schema.LookUpFieldByBindName": true,
 	"schema.Schema.buildPolymorphicRelation": true, "schema.Schema.buildMany2ManyRelation": true, "schema.getOrParse": true,
@@ -808,23 +862,25 @@ var f10Funcs = map[string]bool{
 }
 
 // F11: both racing frames are clause.Where.Build / clause.buildExprs (in-place swap on the shared Exprs array)
-var f11Funcs = map[string]bool{"clause.Where.Build": true, "clause.buildExprs": true}
+var c07F11Funcs = map[string]bool{"clause.Where.Build": true, "clause.buildExprs": true}
 
-func inSet(set map[string]bool, f string) bool { return f == "?" || set[f] }
+func c07InSet(set map[string]bool, f string) bool { return f == "?" || set[f] }
 
-// isParser: the frame is one of the schema-parsing functions (they only run during the first use of a model type)
-func isParser(f string) bool { return f10Funcs[f] }
+// c07IsParser: the frame is one of the schema-parsing functions (they only run during the first use of a model type)
+func c07IsParser(f string) bool { return c07F10Funcs[f] }
 
-// classifyPair maps a normalised race pair to the id of the listed finding whose pattern it matches ("unlisted" otherwise).
-//   F10: cold cache, related model types, BOTH top gorm frames are schema-parser functions — except the pair
-//        {parseRelation, parseRelation}: parseRelation's own accesses are the Mux-protected back-reference insert and appends
-//        to its own schema, which cannot race with each other on the unchanged tree.
-//   F12: cold cache, related model types, EXACTLY ONE frame is a schema-parser function (a goroutine already uses a schema
-//        that another goroutine's parser is still writing: handed out unfinished by getOrParse, or receiving a late
-//        back reference under Mux while readers do not lock).
-//   F11: the shared handle's first WHERE element is a single Or; both frames are clause.Where.Build / clause.buildExprs.
+// c07ClassifyPair maps a normalised race pair to the id of the listed finding whose pattern it matches ("unlisted" otherwise).
+//
+//	F10: cold cache, related model types, BOTH top gorm frames are schema-parser functions — except the pair
+//	     {parseRelation, parseRelation}: parseRelation's own accesses are the Mux-protected back-reference insert and appends
+//	     to its own schema, which cannot race with each other on the unchanged tree.
+//	F12: cold cache, related model types, EXACTLY ONE frame is a schema-parser function (a goroutine already uses a schema
+//	     that another goroutine's parser is still writing: handed out unfinished by getOrParse, or receiving a late
+//	     back reference under Mux while readers do not lock).
+//	F11: the shared handle's first WHERE element is a single Or; both frames are clause.Where.Build / clause.buildExprs.
+//
 // "?" (stack not restorable by the detector) is compatible with either side.
-func classifyPair(p racePair, prog raceProg) string {
+func c07ClassifyPair(p c07RacePair, prog c07RaceProg) string {
 	if p.A == "" && p.B == "" {
 		return "no-gorm-frame"
 	}
@@ -832,14 +888,14 @@ func classifyPair(p racePair, prog raceProg) string {
 		return "unrestorable"
 	}
 	coldRelated := prog.Cold && prog.Family != "unrelated"
-	pa, pb := isParser(p.A) || p.A == "?", isParser(p.B) || p.B == "?"
+	pa, pb := c07IsParser(p.A) || p.A == "?", c07IsParser(p.B) || p.B == "?"
 	if coldRelated && pa && pb && !(p.A == "schema.Schema.parseRelation" && p.B == "schema.Schema.parseRelation") {
 		return "F10"
 	}
-	if coldRelated && (isParser(p.A) != isParser(p.B)) && p.A != "" && p.B != "" {
+	if coldRelated && (c07IsParser(p.A) != c07IsParser(p.B)) && p.A != "" && p.B != "" {
 		return "F12"
 	}
-	if inSet(f11Funcs, p.A) && inSet(f11Funcs, p.B) && prog.Handle == "leadingOr" {
+	if c07InSet(c07F11Funcs, p.A) && c07InSet(c07F11Funcs, p.B) && prog.Handle == "leadingOr" {
 		return "F11"
 	}
 	return "unlisted"
@@ -853,7 +909,7 @@ func c07RaceChild(r *Result, rng *rand.Rand, tier string) {
 		r.Note("C07race is the subprocess half of the C07 e2e suite; run ./check C07")
 		return
 	}
-	var spec raceSpec
+	var spec c07RaceSpec
 	b, err := os.ReadFile(specPath)
 	if err != nil || json.Unmarshal(b, &spec) != nil {
 		r.Note("bad spec")
@@ -861,7 +917,7 @@ func c07RaceChild(r *Result, rng *rand.Rand, tier string) {
 	}
 	logFile := fmt.Sprintf("%s.%d", spec.Log, os.Getpid())
 	off := 0
-	var outcomes []raceOutcome
+	var outcomes []c07RaceOutcome
 	flush := func() {
 		ob, _ := json.Marshal(outcomes)
 		_ = os.WriteFile(outPath, ob, 0o644)
@@ -871,20 +927,20 @@ func c07RaceChild(r *Result, rng *rand.Rand, tier string) {
 			break
 		}
 		t0 := time.Now()
-		o := raceOutcome{Prog: p, Pairs: []racePair{}}
-		ref := runRaceProg(p, true)
+		o := c07RaceOutcome{Prog: p, Pairs: []c07RacePair{}}
+		ref := c07RunRaceProg(p, true)
 		// anything the detector wrote during the serial reference run is attributed to it (expected: nothing)
 		if lb, err := os.ReadFile(logFile); err == nil && len(lb) > off {
-			for _, pr := range parseRaceReports(string(lb[off:])) {
+			for _, pr := range c07ParseRaceReports(string(lb[off:])) {
 				pr.Raw = "DURING SERIAL REFERENCE RUN\n" + pr.Raw
 				o.Pairs = append(o.Pairs, pr)
 			}
 			off = len(lb)
 		}
-		got := runRaceProg(p, false)
+		got := c07RunRaceProg(p, false)
 		time.Sleep(5 * time.Millisecond)
 		if lb, err := os.ReadFile(logFile); err == nil && len(lb) > off {
-			o.Pairs = append(o.Pairs, parseRaceReports(string(lb[off:]))...)
+			o.Pairs = append(o.Pairs, c07ParseRaceReports(string(lb[off:]))...)
 			off = len(lb)
 		}
 		if got.hung {
@@ -893,6 +949,7 @@ func c07RaceChild(r *Result, rng *rand.Rand, tier string) {
 			flush()
 			break // goroutines are stuck; this process cannot be trusted further
 		}
+		o.PtrDiff = got.ptrDiff
 		for k := range got.kinds {
 			o.OpKinds = append(o.OpKinds, k)
 		}
@@ -944,21 +1001,21 @@ func c07Root() string {
 	return filepath.Dir(filepath.Dir(exe)) // <ROOT>/.build/harness
 }
 
-var raceBuildOnce sync.Once
-var raceBuildErr error
+var c07RaceBuildOnce sync.Once
+var c07RaceBuildErr error
 
-// buildRaceBinary: `go build -race -tags verif -o <ROOT>/.build/harness_race .` in <ROOT>/harness; with VERIF_REPO the
+// c07BuildRaceBinary: `go build -race -tags verif -o <ROOT>/.build/harness_race .` in <ROOT>/harness; with VERIF_REPO the
 // module replace is redirected through an alternative modfile exactly as ./check does for the normal binary.
-func buildRaceBinary() (string, error) {
+func c07BuildRaceBinary() (string, error) {
 	root := c07Root()
 	bin := filepath.Join(root, ".build", "harness_race")
-	raceBuildOnce.Do(func() {
+	c07RaceBuildOnce.Do(func() {
 		src := filepath.Join(root, "harness")
 		args := []string{"build", "-race", "-tags", "verif"}
 		if repo := os.Getenv("VERIF_REPO"); repo != "" && repo != "/repo" {
 			mod, err := os.ReadFile(filepath.Join(src, "go.mod"))
 			if err != nil {
-				raceBuildErr = err
+				c07RaceBuildErr = err
 				return
 			}
 			alt := filepath.Join(root, ".build", "go.race.mod")
@@ -973,14 +1030,14 @@ func buildRaceBinary() (string, error) {
 		cmd.Env = append(os.Environ(), "GOFLAGS=-mod=mod", "GOPROXY=off", "GOSUMDB=off", "GOTOOLCHAIN=local", "CGO_ENABLED=1")
 		out, err := cmd.CombinedOutput()
 		if err != nil {
-			raceBuildErr = fmt.Errorf("race build failed: %v\n%s", err, out)
+			c07RaceBuildErr = fmt.Errorf("race build failed: %v\n%s", err, out)
 		}
 	})
-	return bin, raceBuildErr
+	return bin, c07RaceBuildErr
 }
 
-func runRaceChild(progs []raceProg, budget time.Duration) ([]raceOutcome, string) {
-	bin, err := buildRaceBinary()
+func c07RunRaceChild(progs []c07RaceProg, budget time.Duration) ([]c07RaceOutcome, string) {
+	bin, err := c07BuildRaceBinary()
 	if err != nil {
 		return nil, err.Error()
 	}
@@ -989,7 +1046,7 @@ func runRaceChild(progs []raceProg, budget time.Duration) ([]raceOutcome, string
 	specPath := filepath.Join(root, ".build", "c07_spec_"+tag+".json")
 	outPath := filepath.Join(root, ".build", "c07_out_"+tag+".json")
 	logPrefix := filepath.Join(root, ".build", "c07_racelog_"+tag)
-	sb, _ := json.Marshal(raceSpec{Progs: progs, Log: logPrefix})
+	sb, _ := json.Marshal(c07RaceSpec{Progs: progs, Log: logPrefix})
 	_ = os.WriteFile(specPath, sb, 0o644)
 	defer func() {
 		os.Remove(specPath)
@@ -1006,7 +1063,7 @@ func runRaceChild(progs []raceProg, budget time.Duration) ([]raceOutcome, string
 	cmd.Env = append(os.Environ(), "GORACE=halt_on_error=0 history_size=5 log_path="+logPrefix,
 		"C07_RACE_SPEC="+specPath, "C07_RACE_OUT="+outPath)
 	out, runErr := cmd.CombinedOutput()
-	var outcomes []raceOutcome
+	var outcomes []c07RaceOutcome
 	if b, err := os.ReadFile(outPath); err == nil {
 		_ = json.Unmarshal(b, &outcomes)
 	}
@@ -1016,7 +1073,12 @@ func runRaceChild(progs []raceProg, budget time.Duration) ([]raceOutcome, string
 	} else if runErr != nil && len(outcomes) < len(progs) {
 		// exit status 66 = races were reported (expected on the unchanged tree); anything else with missing outcomes is a crash
 		tail := string(out)
-		if len(tail) > 1500 {
+		if i := strings.Index(tail, "fatal error:"); i >= 0 {
+			tail = tail[i:]
+			if len(tail) > 1500 {
+				tail = tail[:1500]
+			}
+		} else if len(tail) > 1500 {
 			tail = tail[len(tail)-1500:]
 		}
 		note = fmt.Sprintf("child ended early (%v): %s", runErr, tail)
@@ -1024,10 +1086,10 @@ func runRaceChild(progs []raceProg, budget time.Duration) ([]raceOutcome, string
 	return outcomes, note
 }
 
-func genRaceProg(rng *rand.Rand) raceProg {
+func c07GenRaceProg(rng *rand.Rand) c07RaceProg {
 	gs := []int{2, 4, 8, 16}
 	fams := []string{"related", "mutual", "mutual", "unrelated", "readers"}
-	p := raceProg{Seed: rng.Int63n(1 << 40), G: gs[rng.Intn(len(gs))], Cold: rng.Intn(2) == 0, Family: fams[rng.Intn(len(fams))],
+	p := c07RaceProg{Seed: rng.Int63n(1 << 40), G: gs[rng.Intn(len(gs))], Cold: rng.Intn(2) == 0, Family: fams[rng.Intn(len(fams))],
 		Prepare: rng.Intn(3) == 0, Ops: 4 + rng.Intn(8)}
 	switch p.Family {
 	case "readers":
@@ -1041,7 +1103,7 @@ func genRaceProg(rng *rand.Rand) raceProg {
 	return p
 }
 
-func judgeRaceOutcomes(r *Result, outcomes []raceOutcome, probe string) {
+func c07JudgeRaceOutcomes(r *Result, outcomes []c07RaceOutcome, probe string) {
 	for _, o := range outcomes {
 		p := o.Prog
 		key := canon(p)
@@ -1053,6 +1115,18 @@ func judgeRaceOutcomes(r *Result, outcomes []raceOutcome, probe string) {
 		r.H("race.handle", p.Handle)
 		for _, k := range o.OpKinds {
 			r.H("race.op", k)
+		}
+		if p.Cold && p.Seed%2 == 0 {
+			r.H("race.cold-entry", "stampede: Statement.Parse of every family model first")
+			r.CorrCompared++
+		} else if p.Cold {
+			r.H("race.cold-entry", "first use through the operations")
+		}
+		if o.PtrDiff != "" {
+			// the model proves single winner (C07_cache_single_winner); the real code, under a real concurrent schedule, disagrees
+			r.Violate(Violation{Kind: "correspondence", Suite: "race-single-winner", Input: p, Observed: o.PtrDiff,
+				Expected: "every goroutine receives the same *schema.Schema for one model type (Gorm.C07_cache_single_winner)",
+				Note:     "schema-cache protocol: two schema objects for one model type were handed to callers"})
 		}
 		if o.Inconclusive != "" {
 			r.H("race.result", "inconclusive")
@@ -1069,7 +1143,7 @@ func judgeRaceOutcomes(r *Result, outcomes []raceOutcome, probe string) {
 			r.H("race.result", "clean")
 		}
 		for _, pr := range o.Pairs {
-			cls := classifyPair(pr, p)
+			cls := c07ClassifyPair(pr, p)
 			r.H("race.pair", cls+": "+pr.A+" ~ "+pr.B)
 			switch cls {
 			case "no-gorm-frame":
@@ -1103,6 +1177,23 @@ func judgeRaceOutcomes(r *Result, outcomes []raceOutcome, probe string) {
 	_ = probe
 }
 
+// c07JudgeChildEnd: the Go runtime kills a process that writes a map concurrently ("fatal error: concurrent map writes" /
+// "concurrent map read and map write") — on a program that only uses one shared handle on disjoint rows that is a
+// violation in itself (attributed to the first program of the shard without an outcome).
+func c07JudgeChildEnd(r *Result, progs []c07RaceProg, outs []c07RaceOutcome, note string) {
+	if note == "" {
+		return
+	}
+	if strings.Contains(note, "fatal error: concurrent map") && len(outs) < len(progs) {
+		r.H("race.result", "runtime-fatal-concurrent-map")
+		r.Violate(Violation{Kind: "e2e", Suite: "race", Input: progs[len(outs)], Observed: note, Expected: "no concurrent map access",
+			Note: "the race-instrumented process died with the Go runtime's concurrent-map fatal error while running this program"})
+		return
+	}
+	r.Note("shard: %s (%d of %d programs judged)", note, len(outs), len(progs))
+	r.H("race.result", "shard-inconclusive")
+}
+
 func c07RaceParent(r *Result, rng *rand.Rand, tier string) {
 	if o := os.Getenv("C07_ONLY"); o != "" && o != "race" { // development aid
 		return
@@ -1111,17 +1202,17 @@ func c07RaceParent(r *Result, rng *rand.Rand, tier string) {
 	if tier == "thorough" {
 		nprogs, budget = 400, 12*time.Minute
 	} else if tier == "search" {
-		nprogs, budget = 60, 140*time.Second
+		nprogs, budget = 48, 60*time.Second
 	}
 	t0 := time.Now()
-	if _, err := buildRaceBinary(); err != nil {
+	if _, err := c07BuildRaceBinary(); err != nil {
 		r.Note("e2e race suite INCONCLUSIVE: %v", err)
 		r.H("race.result", "race-build-failed")
 		return
 	}
 	r.Note("race binary built in %.1fs (go build -race -tags verif)", time.Since(t0).Seconds())
 	// probes re-confirming the listed findings, each in its own subprocess (the detector reports one stack pair once per process)
-	probes := []raceProg{
+	probes := []c07RaceProg{
 		{Seed: 11, G: 16, Cold: true, Family: "mutual", Handle: "db", Ops: 4},
 		{Seed: 12, G: 16, Cold: false, Family: "readers", Handle: "leadingOr", Ops: 9},
 	}
@@ -1129,26 +1220,24 @@ func c07RaceParent(r *Result, rng *rand.Rand, tier string) {
 		seen := false
 		for attempt := 0; attempt < 8 && !seen; attempt++ {
 			pp.Seed += int64(attempt) * 100
-			outs, note := runRaceChild([]raceProg{pp}, 60*time.Second)
-			if note != "" {
-				r.Note("probe %d: %s", i, note)
-			}
+			outs, note := c07RunRaceChild([]c07RaceProg{pp}, 60*time.Second)
+			c07JudgeChildEnd(r, []c07RaceProg{pp}, outs, note)
 			for _, o := range outs {
 				for _, pr := range o.Pairs {
-					if c := classifyPair(pr, o.Prog); c == "F10" || c == "F11" || c == "F12" {
+					if c := c07ClassifyPair(pr, o.Prog); c == "F10" || c == "F11" || c == "F12" {
 						seen = true
 					}
 				}
 			}
-			judgeRaceOutcomes(r, outs, "probe")
+			c07JudgeRaceOutcomes(r, outs, "probe")
 		}
 		if !seen {
 			r.Note("probe %d (%s): listed finding did not reproduce in 8 runs (scheduling dependent)", i, pp.Family+"/"+pp.Handle)
 		}
 	}
-	var progs []raceProg
+	var progs []c07RaceProg
 	for i := 0; i < nprogs; i++ {
-		progs = append(progs, genRaceProg(rng))
+		progs = append(progs, c07GenRaceProg(rng))
 	}
 	// shard over a few subprocesses so a hang only loses one shard
 	shards := 4
@@ -1158,21 +1247,18 @@ func c07RaceParent(r *Result, rng *rand.Rand, tier string) {
 	var wg sync.WaitGroup
 	var mu sync.Mutex
 	for s := 0; s < shards; s++ {
-		var part []raceProg
+		var part []c07RaceProg
 		for i := s; i < len(progs); i += shards {
 			part = append(part, progs[i])
 		}
 		wg.Add(1)
-		go func(part []raceProg) {
+		go func(part []c07RaceProg) {
 			defer wg.Done()
-			outs, note := runRaceChild(part, budget)
+			outs, note := c07RunRaceChild(part, budget)
 			mu.Lock()
 			defer mu.Unlock()
-			if note != "" {
-				r.Note("shard: %s (%d of %d programs judged)", note, len(outs), len(part))
-				r.H("race.result", "shard-inconclusive")
-			}
-			judgeRaceOutcomes(r, outs, "")
+			c07JudgeChildEnd(r, part, outs, note)
+			c07JudgeRaceOutcomes(r, outs, "")
 		}(part)
 	}
 	wg.Wait()
@@ -1180,16 +1266,14 @@ func c07RaceParent(r *Result, rng *rand.Rand, tier string) {
 }
 
 func c07RaceReplay(r *Result, input json.RawMessage) {
-	var p raceProg
+	var p c07RaceProg
 	if json.Unmarshal(input, &p) != nil {
 		return
 	}
 	for attempt := 0; attempt < 5; attempt++ {
-		outs, note := runRaceChild([]raceProg{p}, 120*time.Second)
-		if note != "" {
-			r.Note("replay: %s", note)
-		}
-		judgeRaceOutcomes(r, outs, "replay")
+		outs, note := c07RunRaceChild([]c07RaceProg{p}, 120*time.Second)
+		c07JudgeChildEnd(r, []c07RaceProg{p}, outs, note)
+		c07JudgeRaceOutcomes(r, outs, "replay")
 		if len(r.Violations) > 0 {
 			return
 		}
